@@ -165,7 +165,11 @@ func runRead(c *run.Case, w *run.Worker, r *gen.Rng, sp *readSpec, quiet bool) {
 	}
 	// wrongBytes classifies delivered bytes that are not (a prefix of) the suffix.
 	wrongBytes := func(what string) {
-		if sp.comp == remoteexecution.Compressor_ZSTD && sp.offset != 0 && len(decoded) > 0 && isPrefix(decoded, data) {
+		whole := data // what the backend holds from offset 0
+		if sp.plan != nil {
+			whole = sp.plan.data
+		}
+		if sp.comp == remoteexecution.Compressor_ZSTD && sp.offset != 0 && len(decoded) > 0 && isPrefix(decoded, whole) {
 			c.Violation("byteStreamServer.Read(zstd):read-offset-ignored", "compressed read of %s at offset %d delivered %d bytes that are the object from offset 0 (%s)", sp.obj, sp.offset, len(decoded), what)
 			return
 		}
